@@ -4,7 +4,7 @@ that concurrent builders do not edit the shared registry - merge at will).
     /venv/bin/python -m selftest.mutations_c02 [id ...] [--tier quick]    # runs ./check C02 on each mutant
 
 Result lines:  MUT <id> C02 exit=<rc> caught|MISSED|MACHINERY <first signature>
-All 15 were caught by the quick tier when the check was built (notes/C02.md).
+All 17 were caught by the quick tier (notes/C02.md); the last two need the multi-render histories.
 """
 
 from __future__ import annotations
@@ -107,6 +107,18 @@ MUTATIONS = {
         file='image/block.py', props=["C02"],
         old='if is_on_kitty and cluster2 == bg_color:',
         new='if is_on_kitty and cluster1 == bg_color:',
+    ),
+    # seeded/C02-w1 (needs a multi-render history on ONE image object: unloaded PIL JPEG, small then large)
+    'c02-draft-before-resize': dict(
+        file='image/common.py', props=["C02"],
+        old='            nonlocal img\n\n            if img.mode != mode:\n',
+        new='            nonlocal img\n\n            if img.size != size:\n                img.draft(None, size)\n\n            if img.mode != mode:\n',
+    ),
+    # own (history): a reused PIL GIF keeps its last frame position when the seek to frame 0 is skipped
+    'c02-skip-seek-to-frame-zero': dict(
+        file='image/common.py', props=["C02"],
+        old='        frame_img = img if frame else None\n        if self._is_animated:\n            img.seek(self._seek_position)\n        if not size:\n',
+        new='        frame_img = img if frame else None\n        if self._is_animated and self._seek_position:\n            img.seek(self._seek_position)\n        if not size:\n',
     ),
 }
 
